@@ -31,6 +31,7 @@ type cfCase struct {
 	Fields   []string `json:"fields"`
 	Grouping string   `json:"grouping"`
 	Exported bool     `json:"exported"`
+	Tagged   bool     `json:"tagged"` // every spec of the var block carries a tag k:"<first name of the spec>"
 	Methods  []string `json:"methods"`
 	Block    []struct {
 		Names []int  `json:"names"`
@@ -40,6 +41,7 @@ type cfCase struct {
 		Fields []struct {
 			Ix   int    `json:"ix"`
 			Type string `json:"type"`
+			Tag  int    `json:"tag"` // 0: none; n: k:"<name of field n>"
 		} `json:"fields"`
 		Methods []struct {
 			Name    string   `json:"name"`
@@ -183,6 +185,8 @@ func (c *cfCase) methodsText(idx int, q, recv string) string {
 	return sb.String()
 }
 
+func (c *cfCase) tagText(n int) string { return "`k:\"" + c.fname(n) + "\"`" }
+
 // classFile renders C<idx>.gox.
 func (c *cfCase) classFile(idx int) string {
 	var sb strings.Builder
@@ -192,7 +196,11 @@ func (c *cfCase) classFile(idx int) string {
 		for _, n := range names {
 			ns = append(ns, c.fname(n))
 		}
-		return strings.Join(ns, ", ") + " " + cfGoType(t, cls)
+		tag := ""
+		if c.Tagged {
+			tag = " " + c.tagText(names[0])
+		}
+		return strings.Join(ns, ", ") + " " + cfGoType(t, cls) + tag
 	}
 	if c.Grouping == "single" {
 		sb.WriteString("var " + spec(c.Block[0].Names, c.Block[0].Type) + "\n\n")
@@ -213,7 +221,11 @@ func (c *cfCase) twinText(idx int) string {
 	cls := c.cls(idx)
 	fmt.Fprintf(&sb, "type %s struct {\n", cls)
 	for _, f := range c.Twin.Fields {
-		fmt.Fprintf(&sb, "\t%s %s\n", c.fname(f.Ix), cfGoType(f.Type, cls))
+		tag := ""
+		if f.Tag != 0 {
+			tag = " " + c.tagText(f.Tag)
+		}
+		fmt.Fprintf(&sb, "\t%s %s%s\n", c.fname(f.Ix), cfGoType(f.Type, cls), tag)
 	}
 	sb.WriteString("}\n\n")
 	sb.WriteString(c.methodsText(idx, "this.", "(this *"+cls+") "))
@@ -370,7 +382,11 @@ func cfTypesView(gosrc, cls string) cfShape {
 		if fl.Embedded() {
 			e = " embedded"
 		}
-		sh.Fields = append(sh.Fields, fl.Name()+" "+types.TypeString(fl.Type(), q)+e)
+		tag := ""
+		if t := st.Tag(i); t != "" {
+			tag = " `" + t + "`"
+		}
+		sh.Fields = append(sh.Fields, fl.Name()+" "+types.TypeString(fl.Type(), q)+e+tag)
 	}
 	for i := 0; i < named.NumMethods(); i++ {
 		m := named.Method(i)
@@ -390,7 +406,11 @@ func (c *cfCase) wantShape(idx int) cfShape {
 	cls := c.cls(idx)
 	var sh cfShape
 	for _, f := range c.Twin.Fields {
-		sh.Fields = append(sh.Fields, c.fname(f.Ix)+" "+cfGoType(f.Type, cls))
+		tag := ""
+		if f.Tag != 0 {
+			tag = " " + c.tagText(f.Tag)
+		}
+		sh.Fields = append(sh.Fields, c.fname(f.Ix)+" "+cfGoType(f.Type, cls)+tag)
 	}
 	tuple := func(ts []string, names []string) string {
 		var ps []string
@@ -486,7 +506,7 @@ func runClassFile() {
 		c := &cases[i]
 		res := hlib.Result{Idx: i, V: "ok",
 			Input: map[string]any{"class": c.classFile(i), "fields": c.Fields, "grouping": c.Grouping, "methods": c.Methods, "exported": c.Exported},
-			NT:    fmt.Sprintf("%v/%s/%v/%v", c.Fields, c.Grouping, c.Methods, c.Exported)}
+			NT:    fmt.Sprintf("%v/%s/%v/%v/%v", c.Fields, c.Grouping, c.Methods, c.Exported, c.Tagged)}
 		shapeKey := strings.Join(c.Methods, ",")
 		rank := 0
 		set := func(r int, v, sig, detail string) {
